@@ -581,6 +581,17 @@ class XPathToken(Token[ta.XPathTokenType]):
 
         ordering = self.symbol in ('<', '<=', '>', '>=')
         for op1, op2 in product(left_values, right_values):
+            if self.parser.compatibility_mode:
+                # XPath 2.0+ with the XPath 1.0 compatibility mode, rules 4a and 4b of = and !=
+                if isinstance(op1, bool) or isinstance(op2, bool):
+                    pass
+                elif isinstance(op1, (int, float, Decimal)) or isinstance(op2, (int, float, Decimal)):
+                    yield self.number_value(op1), self.number_value(op2)
+                    continue
+                if isinstance(op1, str) or isinstance(op2, str):
+                    yield self.string_value(op1), self.string_value(op2)
+                    continue
+
             if isinstance(op1, UntypedAtomic):
                 if isinstance(op2, UntypedAtomic):
                     # both untyped: compared as xs:string values
